@@ -32,6 +32,7 @@ type c08WPol struct {
 type c08WCall struct {
 	Dt int64 `json:"dt"`
 	H  int   `json:"h"`  // 0 handler returns nil, 1 returns an error, 2 panics
+	W  int   `json:"w"`  // which of the wrappers created from the one policy object the call goes through
 	Cx int   `json:"cx"` // context of the call: 0 live, 1 cancelled before the call, 2 cancelled by the time the handler returns, 3 deadline exceeded
 }
 
@@ -55,6 +56,7 @@ func c08WContext(cx int) (ctx context.Context, during func(), done func()) {
 type c08WIn struct {
 	Pol   c08WPol    `json:"pol"`
 	T0    int64      `json:"t0"`
+	N     int        `json:"n"` // number of wrappers created from the SAME policy object (0 = 1)
 	Calls []c08WCall `json:"calls"`
 }
 
@@ -86,10 +88,20 @@ func c08WRun(in c08WIn) (obs c08WObs) {
 	now := c08WBase.Add(time.Duration(in.T0))
 	libcb.VerifC08SetNow(func() time.Time { return now })
 	defer libcb.VerifC08SetNow(nil)
-	w := c08WPolicy(in.Pol).CreateWrapper().(circuitBreakerWrapper)
+	// every wrapper comes from ONE policy object, as InjectResiliencePolicy does for the pools of a Proxy
+	policy := c08WPolicy(in.Pol)
+	nw := in.N
+	if nw < 1 {
+		nw = 1
+	}
+	ws := make([]circuitBreakerWrapper, nw)
+	for i := range ws {
+		ws[i] = policy.CreateWrapper().(circuitBreakerWrapper)
+	}
 	errBackend := errors.New("backend failed")
 	for _, c := range in.Calls {
 		now = now.Add(time.Duration(c.Dt))
+		w := ws[c.W%nw]
 		runs := int64(0)
 		callCtx, during, done := c08WContext(c.Cx)
 		h := w.Wrap(func(ctx context.Context) error {
@@ -149,7 +161,8 @@ func c08WGen(r *vfRand, adv bool) c08WIn {
 	}
 	p.Wait = []int64{0, 1_000_000_000, 3_000_000_000, 500_000_000}[r.Intn(4)]
 	p.MaxWait = []int64{0, 0, 1_000_000_000, 2_000_000_000}[r.Intn(4)]
-	in := c08WIn{Pol: p, T0: int64(r.Intn(1_000_000_000))}
+	in := c08WIn{Pol: p, T0: int64(r.Intn(1_000_000_000)), N: r.PickInt(1, 1, 2, 2, 3)}
+	skew := r.Bool() // failures concentrated on wrapper 0, the others see (almost) only successes
 	n := r.Range(3, 40)
 	if adv {
 		n = r.Range(30, 100)
@@ -171,7 +184,16 @@ func c08WGen(r *vfRand, adv bool) c08WIn {
 		case 3:
 			c.Dt = p.MaxWait + 1
 		}
-		if r.Chance(pf, 100) {
+		c.W = r.Intn(in.N)
+		pfc := pf
+		if skew && in.N > 1 {
+			if c.W == 0 {
+				pfc = 90
+			} else {
+				pfc = 3
+			}
+		}
+		if r.Chance(pfc, 100) {
 			c.H = 1 + r.Intn(2)
 		}
 		in.Calls = append(in.Calls, c)
